@@ -138,6 +138,7 @@ class Seams:
       chunk_seed   int: re-cut the output of every Template.generate() call
       extprog      "ok" -> fake formatter edits in place; "rename" -> temp file + rename; "crlf" -> line-ending normaliser
       extra_support_files  {"lang": ..., "paths": [...]}: plain headers the language's support package ships
+      read_faults  {path suffix: errno name}: opening such a file for reading fails although it exists
     """
 
     def __init__(self, plan: dict, sink: typing.Optional[typing.Callable[[list], None]] = None):
@@ -151,6 +152,7 @@ class Seams:
         self.writes_per_file = {}  # type: typing.Dict[int, int]
         self.wopen_paths = []  # type: typing.List[str]
         self.fault = plan.get("fault")
+        self.read_faults = dict(plan.get("read_faults") or {})  # type: typing.Dict[str, str]
         self.fault_fired = None  # type: typing.Optional[str]
         self.extprog_calls = 0
         self.enum_calls = {}  # type: typing.Dict[str, int]
@@ -325,6 +327,14 @@ class Seams:
         if not self.enabled:
             return self._real_open(file, mode, buffering, *a, **kw)
         writing = any(c in mode for c in "wax+")
+        if not writing and self.read_faults:
+            # a read that the kernel refuses although the file is there (EACCES, EIO, ESTALE): keyed by path suffix
+            rrel = self.rel(file) or ""
+            for suffix, code in self.read_faults.items():
+                if rrel.endswith(suffix):
+                    self.record("read-fault", rrel, code)
+                    self.probe("read_fault_fired")
+                    raise OSError(getattr(errno_mod, code), "simulated read fault", str(file))
         rel = self.rel(file) if writing else None
         if not writing or rel is None or not rel.startswith("@"):
             return self._real_open(file, mode, buffering, *a, **kw)
